@@ -308,27 +308,27 @@ headers, kinds of statements and the names they bind) they had when the model wa
 loop, early exit or rebinding has been added that the model does not describe -/
 theorem modelled_functions_have_the_transcribed_shape :
     MlVerif.Gen.C10.shapeNodeFit =
-      "call fit;if(dtlr.verbose >= 1){call print};prob=;if(self.depth + 1 > dtlr.max_depth){return};if(X.shape[0] < dtlr.min_samples_split){return};above=;below=;n_above=;n_below=;y_above=;y_below=;def _fit_side{if(dtlr.verbose >= 1){call print};if(len(y_above_below) > 1 and above_below.shape[0] > dtlr.min_samples_leaf * 2 and (float(n_above_below) / total_N >= dtlr.min_weight_fraction_leaf * 2) and (n_above_below < total_N)){estimator=;sw=;node=;last_index=;return};return};(self.above,last)=;(self.below,last)=;return" ∧
+      "sig(self, X, y, sample_weight, dtlr, total_N)|call fit;if(dtlr.verbose >= 1){call print};prob=;if(self.depth + 1 > dtlr.max_depth){return};if(X.shape[0] < dtlr.min_samples_split){return};above=;below=;n_above=;n_below=;y_above=;y_below=;def _fit_side{if(dtlr.verbose >= 1){call print};if(len(y_above_below) > 1 and above_below.shape[0] > dtlr.min_samples_leaf * 2 and (float(n_above_below) / total_N >= dtlr.min_weight_fraction_leaf * 2) and (n_above_below < total_N)){estimator=;sw=;node=;last_index=;return};return};(self.above,last)=;(self.below,last)=;return" ∧
     MlVerif.Gen.C10.shapeNodePredictProba =
-      "prob=;above=;below=;n_above=;n_below=;if(self.above is not None and n_above > 0){prob_above=;prob[]=};if(self.below is not None and n_below > 0){prob_below=;prob[]=};return" ∧
+      "sig(self, X)|prob=;above=;below=;n_above=;n_below=;if(self.above is not None and n_above > 0){prob_above=;prob[]=};if(self.below is not None and n_below > 0){prob_below=;prob[]=};return" ∧
     MlVerif.Gen.C10.shapeNodeDecisionPath =
-      "mat[]=;prob=;above=;below=;n_above=;n_below=;indices_above=;indices_below=;if(self.above is not None and n_above > 0){call decision_path};if(self.below is not None and n_below > 0){call decision_path}" ∧
+      "sig(self, X, mat, indices)|mat[]=;prob=;above=;below=;n_above=;n_below=;indices_above=;indices_below=;if(self.above is not None and n_above > 0){call decision_path};if(self.below is not None and n_below > 0){call decision_path}" ∧
     MlVerif.Gen.C10.shapeNodeEnumerateLeaves =
-      "if(self.above is None or self.below is None){expr};if(self.above is not None){for(index in self.above.enumerate_leaves_index()){expr}};if(self.below is not None){for(index in self.below.enumerate_leaves_index()){expr}}" ∧
+      "sig(self)|if(self.above is None or self.below is None){expr};if(self.above is not None){for(index in self.above.enumerate_leaves_index()){expr}};if(self.below is not None){for(index in self.below.enumerate_leaves_index()){expr}}" ∧
     MlVerif.Gen.C10.shapeNodeDepth =
-      "dt=;if(self.above is not None){dt=};if(self.below is not None){dt=};return" ∧
+      "sig(self)|dt=;if(self.above is not None){dt=};if(self.below is not None){dt=};return" ∧
     MlVerif.Gen.C10.shapeFit =
-      "if(not isinstance(X, numpy.ndarray)){if(hasattr(X, 'values')){X=}};if(not isinstance(X, numpy.ndarray)){raise};assert;self.classes_=;assert;if(self.strategy == 'parallel'){return};if(self.strategy == 'perpendicular'){return};raise" ∧
+      "sig(self, X, y, sample_weight=None)|if(not isinstance(X, numpy.ndarray)){if(hasattr(X, 'values')){X=}};if(not isinstance(X, numpy.ndarray)){raise};assert;self.classes_=;assert;if(self.strategy == 'parallel'){return};if(self.strategy == 'perpendicular'){return};raise" ∧
     MlVerif.Gen.C10.shapeFitParallel =
-      "cls=;estimator=;self.tree_=;self.n_nodes_=;return" ∧
+      "sig(self, X, y, sample_weight)|cls=;estimator=;self.tree_=;self.n_nodes_=;return" ∧
     MlVerif.Gen.C10.shapePredict =
-      "labels=;return" ∧
+      "sig(self, X)|labels=;return" ∧
     MlVerif.Gen.C10.shapePredictProba =
-      "return" ∧
+      "sig(self, X)|return" ∧
     MlVerif.Gen.C10.shapeDecisionPath =
-      "mat=;call decision_path;return" ∧
+      "sig(self, X, check_input=True)|mat=;call decision_path;return" ∧
     MlVerif.Gen.C10.shapeGetLeavesIndex =
-      "indices=;return" :=
+      "sig(self)|indices=;return" :=
   ⟨rfl, rfl, rfl, rfl, rfl, rfl, rfl, rfl, rfl, rfl, rfl⟩
 
 /-! ### non-vacuity: concrete instances -/
